@@ -23,6 +23,7 @@ VALUES_SMALL = [1, -1, 256, 2**16 - 1, 2**32 + 5, ('lab', 'L'), ('chr', 'z')]
 CHARS = [
     ('a', 'a', 0x61), (' ', ' ', 0x20), (',', ',', 0x2C), (';', ';', 0x3B), ('\\n', '\\n', 0x0A), ('\\x41', '\\x41', 0x41),
     ('\\\\', '\\\\', 0x5C), ('\\"', "\\'", None), ("'", '"', None), ('\\xe9', '\\xe9', 0xE9),       # an escape for a value above 0x7F is one byte too
+    ('\\0', '\\0', 0x00), ('\\x00', '\\x00', 0x00),        # an escape that yields a NUL is a character like any other
 ]
 TERMINATORS = [None, 0, 3, 0xFF]        # an explicit terminator of 0 as well as the default
 
@@ -31,8 +32,8 @@ def meta(tier):
     q = tier == 'quick'
     return {
         'rule': 'numeric: directive in .byte/.2byte/.4byte/.8byte x endianness x every value list of length <=2 over 20 values '
-                '(length 3 over 7 values); strings: every string of length <=3 (quick: <=2 full, 3 over 5 characters) over 10 '
-                'characters/escapes x quote style x .byte/.cstr/.asciiz x terminator, and as embedded strings; fills: .fill n,v / '
+                '(length 3 over 7 values); strings: every string of length <=3 (quick: <=2 full, 3 over 5 characters) over 12 '
+                'characters/escapes (incl. NUL escapes) x quote style x .byte/.cstr/.asciiz x terminator, and as embedded strings; fills: .fill n,v / '
                 '.zero n / .zerountil a over n in {0,1,3}, v in {0,0x41,0x1FF,-1}, a in cursor+{-2,-1,0,1,3}; the same expression text (local / file labels) in several regions and files of one program; each test line sits '
                 'between a 3-byte prefix and a labelled sentinel so that misplaced sizes are visible; non-trivial = value outside '
                 '0..2^width-1, or a label expression, or a string with an escape / separator character, or a zero-length fill',
